@@ -45,9 +45,9 @@ use dmntk_feel::{AstNode, FeelType, Name, Scope};
 use serde_json::json;
 
 // ------------------------------------------------------------------------------------------
-// signatures of known defects (known_findings.json matches on them).  SIG_SURROGATE (F10) and
-// SIG_TWO_COMMENTS (F20) are repaired in /repo (commits 1a5ec1f, d0f16a2): their entries are
-// `fixed`, so a recurrence is reported as a violation under the same, specific signature.
+// signatures of known defects (known_findings.json matches on them).  SIG_SURROGATE (F10),
+// SIG_TWO_COMMENTS (F20) and SIG_KEYWORD_COMMENT (F21) are repaired in /repo: their entries
+// are `fixed`, so a recurrence is reported as a violation under the same, specific signature.
 // ------------------------------------------------------------------------------------------
 
 const SIG_BETWEEN: &str = "round trip fails: `and` or `between` inside the middle operand of between";
@@ -456,7 +456,7 @@ fn text_path_quirk(ts: &[String]) -> bool {
 }
 
 /// A built-in type name followed by a word or one of the name symbols `. / - ' + *`: the lexer
-/// reads on and returns one long name (lexer.rs:556-713: the built-in type names are tried on
+/// reads on and returns one long name (lexer.rs:562-719: the built-in type names are tried on
 /// the longest candidate only).
 fn text_builtin_tail(ts: &[String]) -> bool {
   (0..ts.len()).any(|i| (ts[i] == "number" || ts[i] == "string") && i + 1 < ts.len() && (is_word(&ts[i + 1]) || ts[i + 1].chars().next().map(|c| c.is_ascii_digit()).unwrap_or(false) || [".", "/", "-", "'", "+", "*", "**", ".."].contains(&ts[i + 1].as_str())))
@@ -464,11 +464,11 @@ fn text_builtin_tail(ts: &[String]) -> bool {
 
 #[derive(Clone, Copy, PartialEq, Debug)]
 enum LayoutClass {
-  /// white space and comments (any number per gap), white space right after every keyword
+  /// white space and comments (any number per gap); after a keyword at least one of them
   Clean,
   /// some gap holds two comments in a row (rejected before d0f16a2)
   DoubleComment,
-  /// some keyword is directly followed by a comment
+  /// some keyword is directly followed by a comment (rejected before the repair of F21)
   KeywordComment,
   /// `true`, `false` or `null` directly followed by `(`
   LiteralParen,
@@ -521,7 +521,9 @@ fn render_layout(ts: &[Tk], rng: &mut Rng, class: LayoutClass) -> String {
       // `1 .` + name: keep numbers and dots apart
       let must = must || (t.text == "." || next.text == ".") && (t.wordy || next.wordy);
       let k = rng.below(6);
-      if must || k > 0 {
+      // a comment ends a keyword as well as white space does
+      let comment_first = t.keyword && k >= 4 && rng.chance(1, 2);
+      if !comment_first && (must || k > 0) {
         gap.push_str(pick_str(rng, &WS));
       }
       if k >= 4 {
